@@ -79,7 +79,7 @@ Section Script.
 
   (* the VecDeque loop; every iteration shortens the queue, fuel = its length.
      `items[0]` of an empty Insert would be an index panic in Rust: the model stops ([]); Inserts
-     built by `emit` are never empty (Proofs.v, inserts_nonempty). *)
+     built by `emit` are never empty (Proofs.v, sorted_inserts_nonempty). *)
   Fixpoint fuse (fuel : nat) (q : script) : script :=
     match fuel with
     | O => []
